@@ -12,9 +12,6 @@ package main
 
 import (
 	"bytes"
-	"crypto"
-	"crypto/ecdsa"
-	"crypto/elliptic"
 	"crypto/sha1"
 	"crypto/sha256"
 	"crypto/sha512"
@@ -44,6 +41,8 @@ func hashByName(n string) func([]byte) []byte {
 		return func(b []byte) []byte { s := sha256.Sum256(b); return s[:] }
 	case "sha384":
 		return func(b []byte) []byte { s := sha512.Sum384(b); return s[:] }
+	case "sha512":
+		return func(b []byte) []byte { s := sha512.Sum512(b); return s[:] }
 	}
 	return nil
 }
@@ -150,6 +149,8 @@ func main() {
 		finish(os.Args[2])
 	case "rerun":
 		rerun(os.Args[2], os.Args[3])
+	case "genkeys":
+		genkeys(os.Args[2])
 	default:
 		hx.Die("unknown mode %s", os.Args[1])
 	}
@@ -165,7 +166,9 @@ func replay(path string) {
 	seen := map[string]bool{}
 	kl := newKeyLife()
 	hx.ReadNDJSON(path, func(i int, v *vec) {
-		sum.Evaluations++
+		if v.Kind != "nsec3" && v.Kind != "keylife" { // those count one evaluation per spelling / per algorithm
+			sum.Evaluations++
+		}
 		if p := hx.Catch(func() { one(i, v, &sum, seen, kl) }); p != "" {
 			sum.Mis("sec17/panic:"+v.Kind, "panic: "+p, v)
 		}
@@ -222,6 +225,7 @@ func one(i int, v *vec, sum *hx.Summary, seen map[string]bool, kl *keyLife) {
 		}
 		salt := hex.EncodeToString(v.Salt.Bytes())
 		for j, n := range v.Names {
+			sum.Evaluations++
 			seen[fmt.Sprintf("n3:%s:%d:%d", n.String(), len(v.Salt), v.Iter)] = true
 			got := dns.HashName(n.String(), dns.SHA1, uint16(v.Iter), salt)
 			dec, err := b32.DecodeString(strings.ToUpper(got))
@@ -286,215 +290,6 @@ func coverCase(i int, v *vec, sum *hx.Summary, seen map[string]bool) {
 	}
 }
 
-// ------------------------------------------------------------------ key life cycle
-
-type combo struct {
-	alg  uint8
-	bits int
-}
-
-func (c combo) String() string { return fmt.Sprintf("%s/%d", dns.AlgorithmToString[c.alg], c.bits) }
-
-func combos() []combo {
-	return []combo{{dns.RSASHA1, 1024}, {dns.RSASHA256, 1024}, {dns.RSASHA512, 1024}, {dns.RSASHA256, 2048},
-		{dns.ECDSAP256SHA256, 256}, {dns.ECDSAP384SHA384, 384}, {dns.ED25519, 256}}
-}
-
-type realKey struct {
-	pub  *dns.DNSKEY
-	priv crypto.PrivateKey
-}
-
-type keyLife struct {
-	cache map[string]*realKey // generated once per run and (algorithm, identity): RSA generation is slow
-	n     int
-	fresh int
-	round *vec // the canonical generate -> export -> import -> sign -> verify behaviour, for stress()
-}
-
-func newKeyLife() *keyLife { return &keyLife{cache: map[string]*realKey{}} }
-
-func generate(c combo, id int) *realKey {
-	k := &dns.DNSKEY{Hdr: dns.RR_Header{Name: "Key.Example.", Rrtype: dns.TypeDNSKEY, Class: dns.ClassINET, Ttl: 3600},
-		Flags: 256, Protocol: 3, Algorithm: c.alg}
-	p, err := k.Generate(c.bits)
-	if err != nil {
-		hx.Die("Generate(%v): %v", c, err)
-	}
-	return &realKey{k, p}
-}
-
-func (kl *keyLife) key(c combo, id int) *realKey {
-	ck := fmt.Sprintf("%v#%d", c, id)
-	if kl.cache[ck] == nil {
-		kl.cache[ck] = generate(c, id)
-	}
-	return kl.cache[ck]
-}
-
-var rrset = []dns.RR{
-	&dns.A{Hdr: dns.RR_Header{Name: "www.key.example.", Rrtype: dns.TypeA, Class: dns.ClassINET, Ttl: 300}, A: []byte{192, 0, 2, 1}},
-	&dns.A{Hdr: dns.RR_Header{Name: "www.key.example.", Rrtype: dns.TypeA, Class: dns.ClassINET, Ttl: 300}, A: []byte{192, 0, 2, 2}},
-}
-
-type handle struct {
-	k    *realKey // the DNSKEY this private key belongs to
-	priv crypto.PrivateKey
-	imp  bool
-}
-
-// run one behaviour for one algorithm; fresh = do not use the key cache
-func (kl *keyLife) behaviour(v *vec, c combo, fresh bool, sum *hx.Summary) {
-	keys := map[int]*realKey{}
-	var hs []handle
-	var texts []struct {
-		s string
-		k *realKey
-	}
-	var sigs []*dns.RRSIG
-	var signer []handle
-	alg := c.String()
-	for _, o := range v.Ops {
-		switch o.Op {
-		case "gen":
-			if fresh {
-				keys[o.Key] = generate(c, o.Key)
-			} else {
-				keys[o.Key] = kl.key(c, o.Key)
-			}
-			hs = append(hs, handle{keys[o.Key], keys[o.Key].priv, false})
-		case "export":
-			h := hs[o.H-1]
-			s := h.k.pub.PrivateKeyString(h.priv)
-			if s == "" {
-				sum.Mis("keylife/export-empty:"+alg, "PrivateKeyString returned nothing", v)
-				return
-			}
-			texts = append(texts, struct {
-				s string
-				k *realKey
-			}{s, h.k})
-		case "import":
-			t := texts[o.T-1]
-			var p crypto.PrivateKey
-			var err error
-			if o.Api == "new" {
-				p, err = t.k.pub.NewPrivateKey(t.s)
-			} else {
-				p, err = t.k.pub.ReadPrivateKey(strings.NewReader(t.s), "exported.private")
-			}
-			if err != nil || p == nil {
-				sum.Mis("keylife/import-fails:"+alg, fmt.Sprintf("%s of the text PrivateKeyString produced: %v", o.Api, err), v)
-				return
-			}
-			hs = append(hs, handle{t.k, p, true})
-		case "sign":
-			h := hs[o.H-1]
-			now := uint32(time.Now().Unix())
-			sig := &dns.RRSIG{Hdr: dns.RR_Header{Name: "www.key.example.", Rrtype: dns.TypeRRSIG, Class: dns.ClassINET, Ttl: 300},
-				Inception: now - 3600, Expiration: now + 3600, KeyTag: h.k.pub.KeyTag(), SignerName: h.k.pub.Hdr.Name, Algorithm: c.alg}
-			sg, ok := h.priv.(crypto.Signer)
-			if !ok {
-				sum.Mis("keylife/not-a-signer:"+alg, fmt.Sprintf("private key of type %T cannot sign", h.priv), v)
-				return
-			}
-			if err := sig.Sign(sg, rrset); err != nil {
-				k := "keylife/sign-fails:" + alg
-				if h.imp {
-					k = "keylife/sign-fails-imported:" + alg
-				}
-				sum.Mis(k, fmt.Sprintf("RRSIG.Sign: %v", err), v)
-				return
-			}
-			sigs = append(sigs, sig)
-			signer = append(signer, h)
-		case "verify":
-			sig := sigs[o.S-1]
-			pub := keys[o.Key].pub
-			err := sig.Verify(pub, rrset)
-			if o.Ok && err != nil {
-				k := "keylife/verify-rejects-own-key:" + alg
-				if signer[o.S-1].imp {
-					k = "keylife/verify-rejects-imported-key:" + alg
-				}
-				sum.Mis(k, fmt.Sprintf("signature does not verify under the key it descends from: %v", err), v)
-			}
-			if !o.Ok {
-				forged := *sig
-				forged.KeyTag = pub.KeyTag() // same test with the key tag of the other key: the key material must decide
-				if err == nil || forged.Verify(pub, rrset) == nil {
-					sum.Mis("keylife/verify-accepts-other-key:"+alg, "signature verifies under a different key", v)
-				}
-			}
-		}
-	}
-}
-
-func (kl *keyLife) replay(v *vec, sum *hx.Summary, seen map[string]bool) {
-	gens, imps := 0, 0
-	for _, o := range v.Ops {
-		if o.Op == "gen" {
-			gens++
-		}
-		if o.Op == "import" {
-			imps++
-		}
-	}
-	last := v.Ops[len(v.Ops)-1]
-	if kl.round == nil && gens == 1 && imps == 1 && len(v.Ops) == 5 && last.Ok && v.Ops[3].Op == "sign" && v.Ops[3].H == 2 {
-		kl.round = v
-	}
-	for _, c := range combos() {
-		kl.n++
-		seen[fmt.Sprintf("kl:%v:%v", c, v.Ops)] = true
-		kl.behaviour(v, c, false, sum)
-	}
-}
-
-// The round trip with FRESH elliptic-curve keys many times: integers with leading zero octets (one key or
-// signature in 128) must survive export, import, signing and verification.  The behaviour and its expected
-// result are the specification's; only the key material varies.
-func (kl *keyLife) stress(sum *hx.Summary) {
-	if kl.round == nil {
-		return
-	}
-	n := map[uint8]int{dns.ECDSAP256SHA256: 1200, dns.ECDSAP384SHA384: 500, dns.ED25519: 300}
-	if hx.Thorough() {
-		n = map[uint8]int{dns.ECDSAP256SHA256: 8000, dns.ECDSAP384SHA384: 3000, dns.ED25519: 2000}
-	}
-	for _, c := range combos() {
-		for j := 0; j < n[c.alg]; j++ {
-			kl.fresh++
-			kl.behaviour(kl.round, c, true, sum)
-		}
-	}
-	// private keys produced elsewhere whose integers need padding: D = 1, 2, ... and the first D whose public X is short
-	for _, c := range []combo{{dns.ECDSAP256SHA256, 256}, {dns.ECDSAP384SHA384, 384}} {
-		curve, n := elliptic.P256(), 32
-		if c.alg == dns.ECDSAP384SHA384 {
-			curve, n = elliptic.P384(), 48
-		}
-		short := 0
-		for d := int64(1); d < 2000 && short < 3; d++ {
-			D := big.NewInt(d)
-			x, y := curve.ScalarBaseMult(D.Bytes())
-			if d > 4 && x.BitLen() > 8*(n-1) && y.BitLen() > 8*(n-1) {
-				continue
-			}
-			if d > 4 {
-				short++
-			}
-			pub := dnskey("Key.Example.", 256, 3, int(c.alg), append(x.FillBytes(make([]byte, n)), y.FillBytes(make([]byte, n))...))
-			priv := &ecdsa.PrivateKey{PublicKey: ecdsa.PublicKey{Curve: curve, X: x, Y: y}, D: D}
-			rk := &realKey{pub, priv}
-			kl.cache[fmt.Sprintf("%v#%d", c, 1)] = rk
-			kl.fresh++
-			kl.behaviour(kl.round, c, false, sum)
-			delete(kl.cache, fmt.Sprintf("%v#%d", c, 1))
-		}
-	}
-}
-
 // ------------------------------------------------------------------ record
 
 type evKeytag struct {
@@ -541,19 +336,6 @@ type evValid struct {
 	E     []int  `json:"E"`
 	T     []int  `json:"t"` // epoch, hi, lo
 	Valid bool   `json:"valid"`
-}
-type evKL struct {
-	Ev  string `json:"ev"`
-	Key int    `json:"key"`
-	H   int    `json:"h"`
-	T   int    `json:"t"`
-	S   int    `json:"s"`
-	Api string `json:"api"`
-	Ok  bool   `json:"ok"`
-	Alg string `json:"alg"`
-	// export / import / sign: the real call returned an error (the specification has no such outcome)
-	Failed bool   `json:"failed"`
-	Err    string `json:"err"`
 }
 
 func randLabels(r *rand.Rand, maxLabels int) []string {
@@ -757,95 +539,25 @@ func record(out string, n int) {
 			sum.Sample(fmt.Sprintf("event kind %d", i%6))
 		}
 	}
+	sum.Evaluations = w.N // every event written is judged by the trace specification
 	sum.Nontrivial = len(seen)
 	sum.Note("events", w.N)
 	sum.Print()
 }
 
-// one random key life: events carry the handle/text/signature numbers the model uses (creation order)
-func (kl *keyLife) recordRun(r *rand.Rand, w *hx.Writer, seen map[string]bool) {
-	cs := combos()
-	c := cs[r.Intn(len(cs))]
-	if c.bits == 2048 && r.Intn(4) != 0 {
-		c = cs[4+r.Intn(3)]
-	}
-	alg := c.String()
-	w.Emit(evKL{Ev: "kl.reset", Alg: alg})
-	keys := map[int]*realKey{}
-	var hs []handle
-	var texts []handle
-	var textS []string
-	var sigs []*dns.RRSIG
-	steps := 4 + r.Intn(6)
-	trace := ""
-	for s := 0; s < steps; s++ {
-		switch x := []int{0, 1, 1, 2, 2, 3, 4, 5, 5, 5}[r.Intn(10)]; {
-		case len(hs) == 0 || (x == 0 && len(keys) < 3):
-			id := len(keys) + 1
-			keys[id] = kl.key(c, id+10*r.Intn(2))
-			hs = append(hs, handle{keys[id], keys[id].priv, false})
-			w.Emit(evKL{Ev: "kl.gen", Key: id, Alg: alg})
-			trace += "g"
-		case x == 1:
-			i := r.Intn(len(hs))
-			texts = append(texts, hs[i])
-			textS = append(textS, hs[i].k.pub.PrivateKeyString(hs[i].priv))
-			w.Emit(evKL{Ev: "kl.export", H: i + 1, Alg: alg})
-			trace += "e"
-		case x == 2 && len(texts) > 0:
-			j := r.Intn(len(texts))
-			api := []string{"new", "read"}[r.Intn(2)]
-			var p crypto.PrivateKey
-			var err error
-			if api == "new" {
-				p, err = texts[j].k.pub.NewPrivateKey(textS[j])
-			} else {
-				p, err = texts[j].k.pub.ReadPrivateKey(strings.NewReader(textS[j]), "f")
-			}
-			if err != nil || p == nil {
-				w.Emit(evKL{Ev: "kl.import", T: j + 1, Api: api, Alg: alg, Failed: true, Err: fmt.Sprint(err)})
-				seen["kl"+alg+trace+"I"] = true
-				return
-			}
-			hs = append(hs, handle{texts[j].k, p, true})
-			w.Emit(evKL{Ev: "kl.import", T: j + 1, Api: api, Alg: alg})
-			trace += "i"
-		case x <= 4:
-			i := r.Intn(len(hs))
-			now := uint32(time.Now().Unix())
-			sig := &dns.RRSIG{Hdr: dns.RR_Header{Name: "www.key.example.", Rrtype: dns.TypeRRSIG, Class: dns.ClassINET, Ttl: 300},
-				Inception: now - 3600, Expiration: now + 3600, KeyTag: hs[i].k.pub.KeyTag(), SignerName: hs[i].k.pub.Hdr.Name, Algorithm: c.alg}
-			if err := sig.Sign(hs[i].priv.(crypto.Signer), rrset); err != nil {
-				w.Emit(evKL{Ev: "kl.sign", H: i + 1, Alg: alg, Failed: true, Err: err.Error()})
-				seen["kl"+alg+trace+"S"] = true
-				return
-			}
-			sigs = append(sigs, sig)
-			w.Emit(evKL{Ev: "kl.sign", H: i + 1, Alg: alg})
-			trace += "s"
-		case len(sigs) > 0:
-			j := r.Intn(len(sigs))
-			id := 1 + r.Intn(len(keys))
-			forged := *sigs[j]
-			forged.KeyTag = keys[id].pub.KeyTag()
-			ok := forged.Verify(keys[id].pub, rrset) == nil
-			w.Emit(evKL{Ev: "kl.verify", Key: id, S: j + 1, Ok: ok, Alg: alg})
-			trace += "v"
-		}
-	}
-	seen["kl"+alg+trace] = true
-}
-
 // ------------------------------------------------------------------ finish
 
 type emitted struct {
-	I      int    `json:"i"`
-	Kind   string `json:"kind"`
-	Hash   string `json:"hash"`
-	Input  hx.B   `json:"input"`
-	Digest hx.B   `json:"digest"`
-	Plan   plan   `json:"plan"`
-	Key    string `json:"key"`
+	I      int     `json:"i"`
+	Kind   string  `json:"kind"`
+	Hash   string  `json:"hash"`
+	Input  hx.B    `json:"input"`
+	Digest hx.B    `json:"digest"`
+	Plan   plan    `json:"plan"`
+	Key    string  `json:"key"`
+	Signed hx.B    `json:"signed"`
+	Sig    hx.B    `json:"sig"`
+	Pub    pubInfo `json:"pub"`
 }
 
 func finish(path string) {
@@ -861,11 +573,15 @@ func finish(path string) {
 			if want := runPlan(e.Plan, hashByName("sha1")); !bytes.Equal(want, e.Digest.Bytes()) {
 				sum.Mis(e.Key, fmt.Sprintf("event %d: recorded hash %s, RFC 5155 section 5 gives %s", e.I, b32.EncodeToString(e.Digest.Bytes()), b32.EncodeToString(want)), e)
 			}
+		case "rrsig":
+			if !stdVerify(e.Pub, e.Hash, e.Signed.Bytes(), e.Sig.Bytes()) {
+				sum.Mis(e.Key, fmt.Sprintf("event %d: the signature RRSIG.Sign produced does not verify (standard library, key material as generated) over the RFC 4034 3.1.8.1 octets", e.I), e)
+			}
 		default:
 			hx.Die("unknown emitted kind %q", e.Kind)
 		}
 	})
-	sum.Nontrivial = sum.Evaluations
+	sum.Nontrivial = 0 // the same events were counted as distinct inputs when they were recorded
 	sum.Print()
 }
 
@@ -909,11 +625,7 @@ func rerun(in, out string) {
 	defer w.Close()
 	var sum hx.Summary
 	kl := newKeyLife()
-	var c combo
-	keys := map[int]*realKey{}
-	var hs, texts []handle
-	var textS []string
-	var sigs []*dns.RRSIG
+	var run *klRun
 	hx.ReadNDJSON(in, func(i int, e *anyEv) {
 		sum.Evaluations++
 		switch e.Ev {
@@ -946,56 +658,10 @@ func rerun(in, out string) {
 			rr := &dns.RRSIG{Inception: w32(e.I), Expiration: w32(e.E)}
 			t := int64(tl[0])<<32 | int64(tl[1])<<16 | int64(tl[2])
 			w.Emit(evValid{Ev: e.Ev, I: e.I, E: e.E, T: tl, Valid: rr.ValidityPeriod(time.Unix(t, 0))})
-		case "kl.reset":
-			alg := e.Alg.(string)
-			for _, x := range combos() {
-				if x.String() == alg {
-					c = x
-				}
-			}
-			keys, hs, texts, textS, sigs = map[int]*realKey{}, nil, nil, nil, nil
-			w.Emit(evKL{Ev: e.Ev, Alg: alg})
-		case "kl.gen":
-			id := int(e.Key.(float64))
-			keys[id] = kl.key(c, id)
-			hs = append(hs, handle{keys[id], keys[id].priv, false})
-			w.Emit(evKL{Ev: e.Ev, Key: id, Alg: c.String()})
-		case "kl.export":
-			h := hs[int(e.H.(float64))-1]
-			texts = append(texts, h)
-			textS = append(textS, h.k.pub.PrivateKeyString(h.priv))
-			w.Emit(evKL{Ev: e.Ev, H: int(e.H.(float64)), Alg: c.String()})
-		case "kl.import":
-			j := int(e.T.(float64)) - 1
-			var p crypto.PrivateKey
-			var err error
-			if e.Api == "new" {
-				p, err = texts[j].k.pub.NewPrivateKey(textS[j])
-			} else {
-				p, err = texts[j].k.pub.ReadPrivateKey(strings.NewReader(textS[j]), "f")
-			}
-			if err != nil || p == nil {
-				w.Emit(evKL{Ev: e.Ev, T: j + 1, Api: e.Api, Alg: c.String(), Failed: true, Err: fmt.Sprint(err)})
-				return
-			}
-			hs = append(hs, handle{texts[j].k, p, true})
-			w.Emit(evKL{Ev: e.Ev, T: j + 1, Api: e.Api, Alg: c.String()})
-		case "kl.sign":
-			h := hs[int(e.H.(float64))-1]
-			now := uint32(time.Now().Unix())
-			sig := &dns.RRSIG{Hdr: dns.RR_Header{Name: "www.key.example.", Rrtype: dns.TypeRRSIG, Class: dns.ClassINET, Ttl: 300},
-				Inception: now - 3600, Expiration: now + 3600, KeyTag: h.k.pub.KeyTag(), SignerName: h.k.pub.Hdr.Name, Algorithm: c.alg}
-			if err := sig.Sign(h.priv.(crypto.Signer), rrset); err != nil {
-				w.Emit(evKL{Ev: e.Ev, H: int(e.H.(float64)), Alg: c.String(), Failed: true, Err: err.Error()})
-				return
-			}
-			sigs = append(sigs, sig)
-			w.Emit(evKL{Ev: e.Ev, H: int(e.H.(float64)), Alg: c.String()})
-		case "kl.verify":
-			id := int(e.Key.(float64))
-			forged := *sigs[e.S-1]
-			forged.KeyTag = keys[id].pub.KeyTag()
-			w.Emit(evKL{Ev: e.Ev, Key: id, S: e.S, Ok: forged.Verify(keys[id].pub, rrset) == nil, Alg: c.String()})
+		case "kl.reset", "kl.gen", "kl.provide", "kl.export", "kl.import", "kl.sign", "kl.verify":
+			run = kl.rerunStep(run, e, w)
+		case "rrsig":
+			// written again by the kl.sign it belongs to
 		default:
 			hx.Die("unknown event %q", e.Ev)
 		}
